@@ -34,6 +34,7 @@ def TyWF : Ty → Bool
   | .callable h ts hr r hb b =>     -- the parameter Tuple (a Go slice length is an int), the return type, the block type
       (!h || (TyWFL ts && decide ((ts.length : Int) ≤ maxInt))) && ((!hr || TyWF r) && (!hb || TyWF b))
   | .struct es => TyWFS es && decide (es.length ≤ 9223372036854775807)
+  | .init h t => !h || TyWF t
   | _ => true
 def TyWFL : List Ty → Bool
   | [] => true
@@ -128,6 +129,10 @@ theorem tyEq_eq_R : ∀ a b : Ty, tyEq a b = tyEqR a b
       cases b <;> simp only [tyEq, tyEqR]
       rename_i fs
       rw [tyEqS_eq_R es fs, beq_swap es.length fs.length]
+  | .init h t, b => by
+      cases b with
+      | init h' u => simp only [tyEq, tyEqR]; rw [tyEq_eq_R t u, beq_swap h h']
+      | _ => simp [tyEq, tyEqR]
 theorem tyEqS_eq_R : ∀ es fs : List (Bytes × Bool × Ty), tyEqS es fs = tyEqRS es fs
   | [], _ => by simp [tyEqS, tyEqRS]
   | (n, o, v) :: es, fs => by
@@ -217,6 +222,10 @@ theorem tyEqR_swap : ∀ a b : Ty, tyEqR a b = tyEq b a
       · simp only [Bool.true_and]
         have hl : fs.length = es.length := by simpa using h
         rw [tyEqRS_swap es fs hl.symm]
+  | .init h t, b => by
+      cases b with
+      | init h' u => simp only [tyEq, tyEqR]; rw [optEq_swap h h' _ _ (tyEqR_swap t u)]
+      | _ => simp [tyEq, tyEqR]
 theorem tyEqRS_swap : ∀ es fs : List (Bytes × Bool × Ty), es.length = fs.length → tyEqRS es fs = tyEqS fs es
   | [], fs => fun h => by
       cases fs with
@@ -349,6 +358,11 @@ theorem tyEq_refl : ∀ a : Ty, TyWF a = true → tyEq a a = true
   | .struct es, h => by
       simp only [TyWF, Bool.and_eq_true] at h
       simp [tyEq, tyEqS_refl es h.1]
+  | .init hh t, h => by
+      cases hh
+      · simp [tyEq]
+      · simp only [TyWF, Bool.not_true, Bool.false_or] at h
+        simp [tyEq, tyEq_refl t h]
 theorem tyEqS_refl : ∀ es : List (Bytes × Bool × Ty), TyWFS es = true → tyEqS es es = true
   | [], _ => by simp [tyEqS]
   | (n, o, v) :: es, h => by
@@ -513,6 +527,22 @@ theorem tyEq_trans : ∀ a b c : Ty, tyEq a b = true → tyEq b c = true → tyE
       cases b <;> (try (intro h; simp [tyEq] at h; done))
       cases c <;> simp [tyEq]
       intro h1 h2 h3 h4; exact ⟨h1.trans h3, tyEqS_trans es _ _ h2 h4⟩
+  | .init hh t, b, c => by
+      cases b with
+      | init h' u =>
+        cases c with
+        | init h'' w =>
+          simp only [tyEq, Bool.and_eq_true, beq_iff_eq, Bool.or_eq_true, Bool.not_eq_true']
+          rintro ⟨e1, p1⟩ ⟨f1, q1⟩
+          subst e1; subst f1
+          refine ⟨rfl, ?_⟩
+          rcases p1 with p1 | p1
+          · exact Or.inl p1
+          · rcases q1 with q1 | q1
+            · exact Or.inl q1
+            · exact Or.inr (tyEq_trans t _ _ p1 q1)
+        | _ => intro _ h; simp [tyEq] at h
+      | _ => intro h; simp [tyEq] at h
 theorem tyEqS_trans : ∀ es fs gs : List (Bytes × Bool × Ty), tyEqS es fs = true → tyEqS fs gs = true → tyEqS es gs = true
   | [], _, _ => by simp [tyEqS]
   | (n, o, v) :: es, fs, gs => by
